@@ -334,6 +334,18 @@ def rule_r4(rep, program: Program):
     return r
 
 
+def _is_empty_container(v) -> bool:
+    return (isinstance(v, ast.Dict) and not v.keys) or (isinstance(v, ast.Call) and norm(v.func) in ("dict", "Counter", "collections.Counter", "set") and not v.args and not v.keywords)
+
+
+def _is_fresh_container(v) -> bool:
+    if _is_empty_container(v):
+        return True
+    if isinstance(v, ast.DictComp):
+        return True
+    return isinstance(v, ast.Call) and norm(v.func) in ("dict.fromkeys", "defaultdict", "collections.defaultdict", "Counter")
+
+
 def rule_r5(rep, program: Program):
     r = rep.rule("R5", "pickle tables agree: __getstate__ keys/fields = __setstate__ keys/fields = fields set by __init__", floor=5)
     gs = program.method("ChainState", "__getstate__")
@@ -366,6 +378,7 @@ def rule_r5(rep, program: Program):
         get_map[k.value] = fields.pop()
     sparam = ss.params[1]
     set_map = {}
+    rebuilt: dict[str, ast.expr] = {}  # fields __setstate__ rebuilds instead of restoring
     for st in ast.walk(ss.node):
         if isinstance(st, ast.Assign) and len(st.targets) == 1:
             t = st.targets[0]
@@ -379,6 +392,8 @@ def rule_r5(rep, program: Program):
             v = st.value
             if isinstance(v, ast.Subscript) and norm(v.value) == sparam and isinstance(v.slice, ast.Constant):
                 set_map[v.slice.value] = fld
+            elif _is_fresh_container(v):
+                rebuilt[fld] = v
             else:
                 msg = f"ChainState.__setstate__: unrecognised value {norm(v)}"
                 raise AnalysisError(msg)
@@ -392,13 +407,25 @@ def rule_r5(rep, program: Program):
         r.inst({"key": k, "getstate_field": get_map.get(k), "setstate_field": set_map.get(k)})
         if k not in get_map:
             r.violate(PROP, f"ChainState.pickle:key={k}:missing-in-getstate", f"__setstate__ reads key '{k}' that __getstate__ never writes (unpickling raises KeyError)", node=ss.node, file=ss.file)
+        elif k not in set_map and get_map[k] in rebuilt:
+            continue  # pickled but deliberately rebuilt: harmless
         elif k not in set_map:
             r.violate(PROP, f"ChainState.pickle:key={k}:missing-in-setstate", f"__getstate__ writes key '{k}' ({get_map[k]}) that __setstate__ never restores", node=gs.node, file=gs.file)
         elif get_map[k] != set_map[k]:
             r.violate(PROP, f"ChainState.pickle:key={k}:{get_map[k]}->{set_map[k]}", f"pickle round trip stores field {get_map[k]} under '{k}' but restores it into {set_map[k]}", node=ss.node, file=ss.file)
     # keys kept in the pickled cache must keep their dependency registrations
     _check_dependency_filter(r, gs, get_map, filters)
-    missing = init_fields - set(set_map.values())
+    # rebuilt fields: the variables must come from the pickle; a restored cache needs its restored
+    # dependency table (otherwise the restored entries are never invalidated again)
+    for fld, v in sorted(rebuilt.items()):
+        r.inst({"field rebuilt by __setstate__": fld, "as": norm(v)[:50]})
+        if fld == "_variables":
+            r.violate(PROP, "ChainState.pickle:variables-not-restored", "__setstate__ does not restore the variables from the pickle", node=v, file=ss.file)
+        if fld == "_cache" and not _is_empty_container(v):
+            raise AnalysisError(f"ChainState.__setstate__: rebuilt cache is not an empty dict: {norm(v)[:50]}")
+        if fld == "_dependencies" and "_cache" in set_map.values():
+            r.violate(PROP, "ChainState.pickle:cache-restored-without-dependencies", "__setstate__ restores the pickled cache but rebuilds an empty dependency table: the decorators find the restored keys in the cache, never register them again, and later assignments no longer invalidate them - stale values", node=v, file=ss.file)
+    missing = init_fields - set(set_map.values()) - set(rebuilt)
     for m in sorted(missing):
         r.violate(PROP, f"ChainState.pickle:field={m}:not-restored", f"field {m} set by __init__ is not restored by __setstate__ (attribute access recurses / fails after unpickling)", node=ss.node, file=ss.file)
     return r
